@@ -2,7 +2,7 @@
    Models: coq/Model/C20_Sbor.v (Value decoder/encoder), coq/Model/C21_Traverser.v (VecTraverser). *)
 From Coq Require Import List NArith ZArith Bool Lia.
 Import ListNotations.
-Require Import RV.Model.C20_Sbor RV.Model.C21_Traverser RV.Proof.C20_Base RV.Proof.C20_Sbor RV.Proof.C20_Top RV.Proof.C21_Depth.
+Require Import RV.Model.C20_Sbor RV.Model.C21_Traverser RV.Model.C21_Alloc RV.Proof.C20_Base RV.Proof.C20_Sbor RV.Proof.C20_Top RV.Proof.C21_Depth RV.Proof.C21_Sim RV.Proof.C21_Agree RV.Proof.C21_Alloc.
 Open Scope N_scope.
 
 (* Decoding arbitrary bytes (any list of N, any depth limit, any flavour) returns a value or an
@@ -14,8 +14,7 @@ Proof. exact decode_total. Qed.
 
 (* Bounded work/allocation: every decoded value (at any nesting level) consumes at least one input
    byte, so the decoded tree has at most |input| nodes; elements are only pushed after they were
-   decoded.  (The `Vec::with_capacity(min(len, 1024))` reservation per open container is read off
-   the code, not modelled: at most 1024 elements per open container, <= depth limit containers.) *)
+   decoded.  (The reservation ahead of data is C21_alloc_reserved_bounded below.) *)
 Theorem C21_alloc_bounded : forall fl md input v,
   decode_payload fl md input = Ok v -> (vnodes v <= length input)%nat.
 Proof. exact decode_nodes_bounded. Qed.
@@ -29,6 +28,63 @@ Theorem C21_depth_consistent : forall fl md0 md v bs,
   (md < vdepth v -> encode_payload fl md v = Err (EMaxDepthExceeded md) /\
                     decode_payload fl md bs = Err (MaxDepthExceeded md)).
 Proof. exact depth_consistent. Qed.
+
+(* The streaming traverser (stack machine of Model/C21_Traverser.v) is total: on every byte list,
+   every depth limit (0 included) and either end-check mode it ends with an End or DecodeError
+   event within 2*|input|+4 events; the model's panic sites (next_event after the final event,
+   the `expect`/`unreachable!` sites, a custom kind of another flavour) are unreachable. *)
+Theorem C21_traverser_total : forall fl md check_end input,
+  exists evs, traverse_payload fl md check_end input = RDone evs.
+Proof. exact traverser_total. Qed.
+
+(* Decoder and traverser agree on which payloads are acceptable: for every byte list and every
+   depth limit >= 1 the traverser (check_exact_end) reaches End exactly when decode succeeds.
+   (Limit 0 is the known class traverser_ignores_depth_limit_for_root, refuted below.) *)
+Theorem C21_agree_except_known : forall fl md input, md <> 0 ->
+  (accepts (traverse_payload fl md true input) = true <-> exists v, decode_payload fl md input = Ok v).
+Proof. intros fl md input H. apply traverser_agrees. lia. Qed.
+
+(* When the decoder rejects, the traverser's final event is a DecodeError carrying the same error,
+   or MaxDepthExceeded(limit) (the traverser checks the depth of a container's children before
+   reading the first child's kind byte), or both are BufferUnderflow (byte arrays are read in one
+   batch: different `required`).  In particular a decoder MaxDepthExceeded is a traverser
+   MaxDepthExceeded. *)
+Theorem C21_reject_same_error : forall fl md input err, md <> 0 ->
+  decode_payload fl md input = Err err ->
+  exists err', last_event (traverse_payload fl md true input) = Some (EvError err') /\
+    (err' = err \/ err' = MaxDepthExceeded md \/ (is_uf err = true /\ is_uf err' = true)).
+Proof. intros fl md input err H. apply traverser_error_class. lia. Qed.
+Theorem C21_depth_reject_agrees : forall fl md input m, md <> 0 ->
+  decode_payload fl md input = Err (MaxDepthExceeded m) ->
+  exists m', last_event (traverse_payload fl md true input) = Some (EvError (MaxDepthExceeded m')) /\ (m' = m \/ m' = md).
+Proof.
+  intros fl md input m H D. destruct (traverser_error_class fl md input _ ltac:(lia) D) as [e' [L [O|[O|[O _]]]]]; try discriminate.
+  - exists m. subst e'. split; [exact L|left; reflexivity].
+  - exists md. subst e'. split; [exact L|right; reflexivity].
+Qed.
+
+(* Three-way depth consistency: for a value that encodes at some limit (payload bs) and ANY limit
+   md >= 1: encoder, decoder and traverser all accept iff vdepth v <= md, and otherwise all three
+   fail with MaxDepthExceeded(md). *)
+Theorem C21_depth_three_way : forall fl md0 md v bs, md <> 0 ->
+  wf_value fl v = true -> valid_value v = true -> encode_payload fl md0 v = Ok bs ->
+  (vdepth v <= md -> encode_payload fl md v = Ok bs /\ decode_payload fl md bs = Ok v /\
+                     accepts (traverse_payload fl md true bs) = true) /\
+  (md < vdepth v -> encode_payload fl md v = Err (EMaxDepthExceeded md) /\
+                    decode_payload fl md bs = Err (MaxDepthExceeded md) /\
+                    last_event (traverse_payload fl md true bs) = Some (EvError (MaxDepthExceeded md))).
+Proof. intros fl md0 md v bs H. apply depth_three_way. lia. Qed.
+
+(* Allocation: the cost semantics Model/C21_Alloc.v instruments the decoder with the capacity
+   reserved ahead of data (`Vec::with_capacity(min(len,1024))` per open container minus the
+   elements already pushed).  It computes the decoder's result (erasure); every reservation is
+   <= 1024 elements and <= the declared length; at any moment of decoding any byte list the
+   total reserved ahead of data is <= 1024 * depth limit. *)
+Theorem C21_alloc_reserved_bounded :
+  (forall n, reserve n <= 1024 /\ reserve n <= n) /\
+  (forall fl f md d k st base, fst (cdec_body fl f md d k st base) = dec_body fl f md d k st) /\
+  (forall fl md input, decode_peak fl md input <= 1024 * md).
+Proof. split; [exact reserve_le|]. split; [exact cost_erasure|exact decode_peak_bounded]. Qed.
 
 (* The literal three-way statement is refuted at depth limit 0: the traverser never checks the
    limit for the root value (finding traverser_ignores_depth_limit_for_root). *)
@@ -49,3 +105,8 @@ Proof. cbv zeta. split; [eexists; repeat split; vm_compute; reflexivity|]. repea
 Print Assumptions C21_total.
 Print Assumptions C21_alloc_bounded.
 Print Assumptions C21_depth_consistent.
+Print Assumptions C21_traverser_total.
+Print Assumptions C21_agree_except_known.
+Print Assumptions C21_reject_same_error.
+Print Assumptions C21_depth_three_way.
+Print Assumptions C21_alloc_reserved_bounded.
